@@ -297,4 +297,24 @@ example :
       readStorage mv base 2 5 0, readStorage mv base 3 5 0, readStorage mv base 3 5 1) =
       (42, 0, 9, 0, 11, 9) := by decide
 
+/-- **reset_marker_needed** (necessity; the shape of seeded change C08e, which drops the marker
+    when the account is the fee recipient).  tx 0 writes slot 1 := 7, tx 1 destroys the account,
+    tx 2 re-creates it with a constructor that writes only slot 0.  With the StorageReset markers
+    a later read of slot 1 sees 0, as the logical state does; with the markers withheld it sees
+    the value written before the destruction. -/
+theorem reset_marker_needed :
+    let base : LState := { acct := fun _ => some ⟨1, 7⟩, stor := fun _ _ => 0 }
+    let txs : Nat → TxChanges := fun j a =>
+      if a ≠ 5 then .unchanged
+      else if j = 0 then .updated ⟨1, 7⟩ [(1, 7)]
+      else if j = 1 then .deleted
+      else if j = 2 then .created ⟨2, 8⟩ [(0, 3)]
+      else .unchanged
+    let mv := mvOf txs (fun _ _ => false) (fun _ _ => false)
+    let mvNoReset : Nat → Published := fun j => { mv j with reset := fun _ => false }
+    (logical base txs 3).stor 5 1 = 0 ∧
+    readStorage mv base 3 5 1 = 0 ∧
+    readStorage mvNoReset base 3 5 1 = 7 := by
+  decide
+
 end Grevm.Repr
